@@ -10,8 +10,10 @@
    order an element with a placeholder-free path has been read before the junk, the first such being a root element;
    [C14_known_root_start]: e.g. the document starts with a root element).  In both classes "cannot begin a valid tag" is the
    semantic hypothesis [junk_run]: at the junk's first byte and at each later junk position the header check fails in the
-   reader's state there. *)
-From Ebml Require Import Base Tools Spec Writer Reader Pure Encode Proofs.Tactics Proofs.ReaderIO Proofs.Refine Proofs.PureProofs Proofs.RoundTrip Proofs.RoundTripKnown Proofs.Nesting Proofs.Partial Proofs.PartialKnown Proofs.Recover Proofs.RecoverKnown Proofs.AuditIO.
+   reader's state there.  Two SYNTACTIC sufficient conditions for it, recognisable from the bytes and the specification alone,
+   are given at the end of the file (Proofs/RecoverSyntactic.v): every junk byte is an undeclared one-byte id ([junk_byte]:
+   0 or 128..255, not declared), or more generally the id decoded at every junk position is not declared ([junk_ids]). *)
+From Ebml Require Import Base Tools Spec Writer Reader Pure Encode Proofs.Tactics Proofs.ReaderIO Proofs.Refine Proofs.PureProofs Proofs.RoundTrip Proofs.RoundTripKnown Proofs.Nesting Proofs.Partial Proofs.PartialKnown Proofs.Recover Proofs.RecoverKnown Proofs.RecoverSyntactic Proofs.AuditIO.
 
 (* the complete run: the tags before the junk unchanged (with the Ends of the masters that are complete there), exactly one
    error, try_recover() succeeds, then all remaining tags; the premise "the following tag still fits inside every enclosing
@@ -230,3 +232,174 @@ Example C14_ex_known_run :
   out_ddoc C14k_doc (RInvalidTagId 19 255) = p_run C14k_cfg (enc_ddoc C14k_doc) [RAll; RRecover; RAll] /\
   out_zdoc (undamaged C14k_doc) = p_run C14k_cfg (enc_zdoc (undamaged C14k_doc)) [RAll].
 Proof. vm_compute. repeat split; reflexivity. Qed.
+
+(* ------------------------------------------------------------------ syntactic junk conditions (Proofs/RecoverSyntactic.v) *)
+(* [id_at bs] is the element id (with its length in bytes) the reader decodes at the head of the bytes bs, None when bs ends
+   before the id does: it is the reader's id decoder as a function of the remaining input alone *)
+Theorem C14_id_at_is_the_id_decoder : forall st,
+  p_tag_id st = match id_at (b_bytes st) with Some r => Ok r | None => Err (REof (b_off st) None None None) end.
+Proof. exact p_tag_id_id_at. Qed.
+
+(* what the decoder does with single bytes: a byte 128..254 is the one-byte id of that value; so is 255 (the one-byte vint with all
+   value bits set is not treated specially); a first byte 0 is read as the one-byte id 0 whatever follows; a byte 1..127
+   announces a longer id (127: two bytes, here cut short by the end of the input; 64 1: the two-byte id 16385) *)
+Example C14_ex_one_byte_ids :
+  id_at [200; 7] = Some (200, 1%nat) /\ id_at [255; 7] = Some (255, 1%nat) /\ id_at [0; 7] = Some (0, 1%nat) /\
+  id_at [127] = None /\ id_at [64; 1] = Some (16385, 2%nat).
+Proof. vm_compute. repeat split; reflexivity. Qed.
+
+(* [junk_byte c b]: the byte b is 0 or lies in 128..255 and, as an element id, is not declared in the specification of c *)
+Theorem C14_junk_byte_def : forall c b, junk_byte c b <-> ((b = 0 \/ 128 <= b <= 255) /\ get_type (c_sp c) b = None).
+Proof. intros c b. reflexivity. Qed.
+
+(* [junk_ids c jk rest]: at every position k of the junk jk, the id decoded from the rest of the junk followed by the bytes
+   rest after it is not declared in the specification of c (or the input ends before that id does) *)
+Theorem C14_junk_ids_def : forall c jk rest, junk_ids c jk rest <->
+  forall k, (k < length jk)%nat ->
+    match id_at (skipn k (jk ++ rest)) with Some (id, _) => get_type (c_sp c) id = None | None => True end.
+Proof. intros c jk rest. reflexivity. Qed.
+
+(* a header check fails, with an invalid-id, invalid-data or end-of-input error, in every state whose remaining input consists of
+   bytes < 256 and starts with an undeclared id (or is too short to hold its id), when unknown ids are not tolerated *)
+Theorem C14_undeclared_header_fails : forall c st, c_allow_id c = false -> wf_bytes (b_bytes st) -> undeclared_at c (b_bytes st) ->
+  exists e, snd (p_header c st) = Err e /\
+    ((exists pos id, e = RInvalidTagId pos id) \/ (exists pos id, e = RInvalidTagData pos id) \/ (exists pos oid, e = REof pos oid None None)).
+Proof. exact header_fails_undeclared. Qed.
+
+(* the syntactic conditions imply the semantic one: if unknown ids are not tolerated, the remaining input of the state st is the
+   non-empty junk jk followed by rest, rest consists of bytes < 256 and every junk byte is an undeclared one-byte id, then the
+   header check fails at the first junk byte and at every later junk position ... *)
+Theorem C14_junk_run_of_undeclared_one_byte_ids : forall c st jk rest, c_allow_id c = false -> b_bytes st = jk ++ rest -> jk <> [] ->
+  wf_bytes rest -> Forall (junk_byte c) jk -> junk_run c st (length jk).
+Proof. exact junk_run_of_undeclared_one_byte_ids. Qed.
+
+(* ... and the same when, more generally, jk and rest consist of bytes < 256 and the id decoded at every junk position is not
+   declared (such an id may span several junk bytes or run into the bytes after the junk) *)
+Theorem C14_junk_run_of_undeclared_ids : forall c st jk rest, c_allow_id c = false -> b_bytes st = jk ++ rest -> jk <> [] ->
+  wf_bytes jk -> wf_bytes rest -> junk_ids c jk rest -> junk_run c st (length jk).
+Proof. exact junk_run_of_undeclared_ids. Qed.
+
+(* one-byte junk is a special case of the general condition *)
+Theorem C14_junk_ids_of_bytes : forall c rest jk, Forall (junk_byte c) jk -> junk_ids c jk rest.
+Proof. exact junk_ids_of_bytes. Qed.
+
+(* C14_damaged_run_partial with the syntactic junk condition: strict configuration, no buffered masters, Ends emitted at the end of
+   the input, the undamaged document conforms (first class), the junk is not empty, something precedes it, the following tag still
+   fits after the shift, and EVERY JUNK BYTE IS 0 OR IN 128..255 AND IS NOT A DECLARED ID: then the run is the tags before the junk,
+   exactly one error, a successful try_recover(), and all remaining tags *)
+Theorem C14_damaged_run_syntactic_partial : forall c d, strict c -> c_buffered c = [] -> c_emit_eof c = true -> conf_zdoc c (undamaged d) ->
+  d_junk d <> [] -> (d_levels d <> [] \/ d_f1 d <> []) ->
+  room (d_stk d) (d_off2 d + N.of_nat (length (d_junk d)) + tlen (d_x d)) ->
+  Forall (junk_byte c) (d_junk d) ->
+  exists e0, p_run c (enc_ddoc d) [RAll; RRecover; RAll] = out_ddoc d e0.
+Proof. exact damaged_run_syntactic. Qed.
+
+(* ... and under the same hypotheses the tag sequence is exactly that of the undamaged document *)
+Theorem C14_recovery_loses_nothing_syntactic_partial : forall c d, strict c -> c_buffered c = [] -> c_emit_eof c = true -> conf_zdoc c (undamaged d) ->
+  d_junk d <> [] -> (d_levels d <> [] \/ d_f1 d <> []) ->
+  room (d_stk d) (d_off2 d + N.of_nat (length (d_junk d)) + tlen (d_x d)) ->
+  Forall (junk_byte c) (d_junk d) ->
+  out_tags (p_run c (enc_ddoc d) [RAll; RRecover; RAll]) = out_tags (p_run c (enc_zdoc (undamaged d)) [RAll]).
+Proof. exact recovery_loses_nothing_syntactic. Qed.
+
+(* the same two for the second class (known sizes, global placeholders, position determined before the junk) *)
+Theorem C14_damaged_run_known_syntactic_partial : forall c d, strict c -> c_buffered c = [] -> c_emit_eof c = true ->
+  kconf_zdoc c (undamaged d) -> jstart c d -> d_junk d <> [] ->
+  room (d_stk d) (d_off2 d + N.of_nat (length (d_junk d)) + tlen (d_x d)) ->
+  Forall (junk_byte c) (d_junk d) ->
+  exists e0, p_run c (enc_ddoc d) [RAll; RRecover; RAll] = out_ddoc d e0.
+Proof. exact damaged_run_known_syntactic. Qed.
+Theorem C14_recovery_loses_nothing_known_syntactic_partial : forall c d, strict c -> c_buffered c = [] -> c_emit_eof c = true ->
+  kconf_zdoc c (undamaged d) -> jstart c d -> d_junk d <> [] ->
+  room (d_stk d) (d_off2 d + N.of_nat (length (d_junk d)) + tlen (d_x d)) ->
+  Forall (junk_byte c) (d_junk d) ->
+  out_tags (p_run c (enc_ddoc d) [RAll; RRecover; RAll]) = out_tags (p_run c (enc_zdoc (undamaged d)) [RAll]).
+Proof. exact recovery_loses_nothing_known_syntactic. Qed.
+
+(* the four theorems with the general syntactic condition: the junk consists of bytes < 256 and the id decoded at every junk
+   position, from the rest of the junk followed by the bytes [d_after d] that follow the junk in the document, is not declared *)
+Theorem C14_after_def : forall d, d_after d = enc_rights ((d_x d :: d_f2 d) :: d_rights d) /\
+  b_bytes (junk_state d) = d_junk d ++ d_after d.
+Proof. intros d. split; reflexivity. Qed.
+Theorem C14_damaged_run_ids_partial : forall c d, strict c -> c_buffered c = [] -> c_emit_eof c = true -> conf_zdoc c (undamaged d) ->
+  d_junk d <> [] -> wf_bytes (d_junk d) -> (d_levels d <> [] \/ d_f1 d <> []) ->
+  room (d_stk d) (d_off2 d + N.of_nat (length (d_junk d)) + tlen (d_x d)) ->
+  junk_ids c (d_junk d) (d_after d) ->
+  exists e0, p_run c (enc_ddoc d) [RAll; RRecover; RAll] = out_ddoc d e0.
+Proof. exact damaged_run_ids. Qed.
+Theorem C14_recovery_loses_nothing_ids_partial : forall c d, strict c -> c_buffered c = [] -> c_emit_eof c = true -> conf_zdoc c (undamaged d) ->
+  d_junk d <> [] -> wf_bytes (d_junk d) -> (d_levels d <> [] \/ d_f1 d <> []) ->
+  room (d_stk d) (d_off2 d + N.of_nat (length (d_junk d)) + tlen (d_x d)) ->
+  junk_ids c (d_junk d) (d_after d) ->
+  out_tags (p_run c (enc_ddoc d) [RAll; RRecover; RAll]) = out_tags (p_run c (enc_zdoc (undamaged d)) [RAll]).
+Proof. exact recovery_loses_nothing_ids. Qed.
+Theorem C14_damaged_run_known_ids_partial : forall c d, strict c -> c_buffered c = [] -> c_emit_eof c = true ->
+  kconf_zdoc c (undamaged d) -> jstart c d -> d_junk d <> [] -> wf_bytes (d_junk d) ->
+  room (d_stk d) (d_off2 d + N.of_nat (length (d_junk d)) + tlen (d_x d)) ->
+  junk_ids c (d_junk d) (d_after d) ->
+  exists e0, p_run c (enc_ddoc d) [RAll; RRecover; RAll] = out_ddoc d e0.
+Proof. exact damaged_run_known_ids. Qed.
+Theorem C14_recovery_loses_nothing_known_ids_partial : forall c d, strict c -> c_buffered c = [] -> c_emit_eof c = true ->
+  kconf_zdoc c (undamaged d) -> jstart c d -> d_junk d <> [] -> wf_bytes (d_junk d) ->
+  room (d_stk d) (d_off2 d + N.of_nat (length (d_junk d)) + tlen (d_x d)) ->
+  junk_ids c (d_junk d) (d_after d) ->
+  out_tags (p_run c (enc_ddoc d) [RAll; RRecover; RAll]) = out_tags (p_run c (enc_zdoc (undamaged d)) [RAll]).
+Proof. exact recovery_loses_nothing_known_ids. Qed.
+
+(* the junk FF FE FD of the two example documents satisfies the one-byte condition in their specifications, so the syntactic
+   theorems apply to them (their other hypotheses are in C14_ex_hyps / C14_ex_known_hyps) *)
+Example C14_ex_syntactic_hyps : Forall (junk_byte C14_cfg) (d_junk C14_doc) /\ Forall (junk_byte C14k_cfg) (d_junk C14k_doc).
+Proof. split; repeat (constructor; [split; [right; cbn; lia|vm_compute; reflexivity]|]); constructor. Qed.
+Example C14_ex_syntactic_applies :
+  (exists e0, p_run C14_cfg (enc_ddoc C14_doc) [RAll; RRecover; RAll] = out_ddoc C14_doc e0) /\
+  (exists e0, p_run C14k_cfg (enc_ddoc C14k_doc) [RAll; RRecover; RAll] = out_ddoc C14k_doc e0).
+Proof.
+  destruct C14_ex_hyps as [H1 [H2 [H3 _]]]. destruct C14_ex_known_hyps as [K1 [K2 [K3 [K4 _]]]]. destruct C14_ex_syntactic_hyps as [J1 J2]. split.
+  - apply C14_damaged_run_syntactic_partial; try assumption; try reflexivity; [discriminate|right; discriminate].
+  - apply C14_damaged_run_known_syntactic_partial; try assumption; try reflexivity; discriminate.
+Qed.
+
+(* the error reported at the junk is not always the invalid-id error: with the junk FF 00 C8 (each byte an undeclared one-byte
+   id, so the theorems apply) the byte after the id FF is 00, which is not a valid size, and the one error is InvalidTagData *)
+Definition C14_doc_ff00 : ddoc :=
+  {| d_levels := d_levels C14_doc; d_f1 := d_f1 C14_doc; d_junk := [255; 0; 200];
+     d_x := d_x C14_doc; d_f2 := d_f2 C14_doc; d_rights := d_rights C14_doc |}.
+Example C14_ex_syntactic_error_kind :
+  Forall (junk_byte C14_cfg) (d_junk C14_doc_ff00) /\
+  p_run C14_cfg (enc_ddoc C14_doc_ff00) [RAll; RRecover; RAll] =
+    [OItem (TStart 129) 0; OItem (TElem 16641 (VU 5)) 2; OErr (RInvalidTagData 6 255); ORecOk;
+     OItem (TStart 16643) 9; OItem (TElem 16642 (VB [7])) 12; OItem (TEnd 16643) 9; OItem (TElem 16641 (VU 6)) 16; OItem (TEnd 129) 0; ONone].
+Proof.
+  split; [|vm_compute; reflexivity].
+  constructor; [split; [right; cbn; lia|vm_compute; reflexivity]|]. constructor; [split; [left; reflexivity|vm_compute; reflexivity]|].
+  constructor; [split; [right; cbn; lia|vm_compute; reflexivity]|]. constructor.
+Qed.
+
+(* junk that is not made of one-byte ids but satisfies the general condition: 40 05 is the undeclared two-byte id 16389, and at
+   the second junk byte 05 announces a six-byte id that runs into the following tag (05 41 03 84 41 02) and is not declared either *)
+Definition C14_doc_4005 : ddoc :=
+  {| d_levels := d_levels C14_doc; d_f1 := d_f1 C14_doc; d_junk := [64; 5];
+     d_x := d_x C14_doc; d_f2 := d_f2 C14_doc; d_rights := d_rights C14_doc |}.
+Example C14_ex_ids :
+  junk_ids C14_cfg (d_junk C14_doc_4005) (d_after C14_doc_4005) /\
+  map (fun k => id_at (skipn k (d_junk C14_doc_4005 ++ d_after C14_doc_4005))) [0; 1]%nat = [Some (16389, 2%nat); Some (5776790012162, 6%nat)] /\
+  p_run C14_cfg (enc_ddoc C14_doc_4005) [RAll; RRecover; RAll] =
+    [OItem (TStart 129) 0; OItem (TElem 16641 (VU 5)) 2; OErr (RInvalidTagId 6 16389); ORecOk;
+     OItem (TStart 16643) 8; OItem (TElem 16642 (VB [7])) 11; OItem (TEnd 16643) 8; OItem (TElem 16641 (VU 6)) 15; OItem (TEnd 129) 0; ONone].
+Proof.
+  split; [|split; vm_compute; reflexivity].
+  intros k Hk. destruct k as [|[|k]]; [vm_compute; reflexivity|vm_compute; reflexivity|cbn in Hk; lia].
+Qed.
+
+(* the condition "not declared" cannot be dropped: the single junk byte 81 is the declared id of Root; here the header check still
+   fails (Root may not stand inside Root) and the recovery still works, but with a hierarchy error - such junk is covered only by
+   the semantic hypothesis [junk_run], not by the syntactic ones *)
+Definition C14_doc_81 : ddoc :=
+  {| d_levels := d_levels C14_doc; d_f1 := d_f1 C14_doc; d_junk := [129];
+     d_x := d_x C14_doc; d_f2 := d_f2 C14_doc; d_rights := d_rights C14_doc |}.
+Example C14_ex_declared_junk_byte :
+  ~ junk_byte C14_cfg 129 /\
+  p_run C14_cfg (enc_ddoc C14_doc_81) [RAll; RRecover; RAll] =
+    [OItem (TStart 129) 0; OItem (TElem 16641 (VU 5)) 2; OErr (RHierarchy 129 (Some 129)); ORecOk;
+     OItem (TStart 16643) 7; OItem (TElem 16642 (VB [7])) 10; OItem (TEnd 16643) 7; OItem (TElem 16641 (VU 6)) 14; OItem (TEnd 129) 0; ONone].
+Proof. split; [intros [_ H]; vm_compute in H; discriminate|vm_compute; reflexivity]. Qed.
